@@ -55,6 +55,27 @@ CHECKS.update({
     'DESIGN.md §4 C20'),
 })
 
+CHECKS.update({
+ 'C03': ('E1-order-and-schedule-enumeration',
+    'for every base state (sealed states within depth 3, thorough 6, of pool/UTXO histories on Custom02 and Custom08) and every set S of alphabet transactions with |S| <= 3 (plus all sets of 4 on the first base; thorough: <= 4 everywhere): all |S|! orderings as one batch, every topological one-at-a-time order, explicit rayon pools of 1 and 16 (thorough 1,2,4,16) threads, and apply_block over HashSets rebuilt with fresh hashers and insertion orders; oracle: identical accept/reject and identical seal(None) and seal(Some) headers; plus the height-0 header-reading-covenant corner',
+    'Bounded exhaustive enumeration of orders on the real apply_tx_batch / apply_tx / apply_block: every permutation of every small set (acceptable sets and sets with an invalid member) is executed and all results compared; pool sizes vary the parallel schedule at closure granularity. Right level: order dependence needs a specific relative order of two or three dependent transactions, which the permutation sweep enumerates completely within the bound.',
+    'Trusted: header equality as state equality (C07). Limits: interleavings inside one validation closure are not enumerated (rayon, parking_lot and dashmap cannot be intercepted by loom/shuttle; closures only read shared immutable data) - pool-size variation is free-running, i.e. sampling of schedules, and is labelled so in the evidence; which error a rejected batch returns is not compared.',
+    'DESIGN.md §4 C03, §5'),
+ 'C06': ('E3-mutation-grid',
+    'for every parent within depth 3 (thorough 6) of histories on Custom02, Custom08 (dense transaction tree) and Testnet (thorough: + fees, Mainnet), every child block built from <= 2 (thorough 3) alphabet transactions with and without a proposer action, and every single mutation of it: each of the 11 header fields replaced by two other values, each transaction removed, each alphabet transaction (valid and invalid) added, each transaction replaced (same hash_nosigs with other signatures; other output data), proposer action None<->Some, delta+-1, other destination; oracle computed without apply_block: Ok iff batch accepted and sealed header == block header, returned header == block header',
+    'Bounded exhaustive enumeration of (parent, block, single mutation) triples through the real apply_block, against the first sentence of the statement evaluated through next_unsealed / apply_tx_batch / seal.',
+    'Trusted: next_unsealed, apply_tx_batch and seal as the definition of the correct successor (their own correctness is C01-C05, C15-C20); HashSet iteration order is C03 subject.',
+    'DESIGN.md §4 C06'),
+ 'C07': e1('explicit-state breadth-first search over UTXO and pool histories on Custom02, Custom08 (dense transaction commitment) and Testnet across the TIP-906 activation, with an oracle on every generated successor (before de-duplication): height/previous/network linkage and history contents on the honest segment; coin, pool and stake roots recomputed from the model content in a fresh tree in ascending and descending key order; transaction commitment rebuilt externally under both schemes; two-directional maps content digest <-> root / header hash over the whole explored set (history independence and sensitivity); Merkle proofs of presence and absence for coins, pools and history entries verified against the header roots and refuted for other values; transaction positions and dense proofs; scalar/stake sensitivity through from_block pairs',
+    'Bounded exhaustive exploration with commitment oracles evaluated on every generated state, including the cross-path bijection between model content and commitments.',
+    'DESIGN.md §4 C07'),
+ 'C08': ('E1-product-search',
+    'product search: every sealed state within d1 = 4 (thorough 6) of scenarios on Custom02 (with and without fees), Custom08, Testnet across the 499->500 activation and Custom02 with stakes at the last block of epochs 0 and 1 is a restart point (with/without proposer action, with/without pending tips); the pair (original, from_block(to_block)) is driven in lock-step through every continuation of depth d2 = 4 (thorough 5) including one nested restart; oracle: same accept/reject, same header and same tips at every step',
+    'Bounded exhaustive exploration of (crash point x continuation): all restart points within the first bound, all continuations within the second, on the real to_block / from_block / next_unsealed / apply_tx_batch / seal.',
+    'Trusted: the content-addressed store survives the restart (same Database); header + tips equality as behavioural equality within the continuation bound.',
+    'DESIGN.md §4 C08'),
+})
+
 NOT_APPLICABLE = {}
 DEFAULT_NA = 'check not built yet (work in progress; see DESIGN.md appendix B)'
 
